@@ -194,9 +194,9 @@ func (s *JavaFullListener) EnterInterfaceDeclaration(ctx *parser.InterfaceDeclar
 func (s *JavaFullListener) EnterInterfaceBodyDeclaration(ctx *parser.InterfaceBodyDeclarationContext) {
 	hasEnterClass = true
 	for _, modifier := range ctx.AllModifier() {
+		// a keyword modifier (native, synchronized, transient, volatile) is a token without children
 		modifier := modifier.(*parser.ModifierContext).GetChild(0)
-		if reflect.TypeOf(modifier.GetChild(0)).String() == "*parser.AnnotationContext" {
-			annotationContext := modifier.GetChild(0).(*parser.AnnotationContext)
+		if annotationContext, ok := modifier.GetChild(0).(*parser.AnnotationContext); ok {
 			common_listener.BuildAnnotation(annotationContext)
 		}
 	}
